@@ -45,59 +45,70 @@ class Frame:
         self.z = []
         self.qid = []
         self.zid = []
-        self.lines = {}             # tag -> list of raw lines (component state)
+        self.state = {}             # 'tag idx' -> body of the current state line
+        self.recs = []              # records appended by this frame
         self.evid = None
         self.abort = None
 
 
 def frames(stream, scenario_lines=None):
-    """Split a stream into frames.  `scenario_lines` (token lists) lets ext frames know their op."""
-    exts = [l for l in (scenario_lines or []) if l[0] in ('ext', 'step', 'run')]
+    """Split a stream into frames (one per executed event / external operation).  State lines are
+    printed as deltas: every frame carries the full current state in `.state` (key -> rest of line)
+    and the pending / paused lists current at that point."""
     fs = []
     cur = None
-    ext_i = 0
-    pending_res = []
+    state = {}
+    q, z, qid, zid = [], [], [], []
+
+    def close_frame():
+        if cur is not None:
+            cur.state = dict(state)
+            cur.q, cur.z, cur.qid, cur.zid = q, z, qid, zid
+
     for l in stream:
         tag, _, rest = l.partition(' ')
         if tag == 'ev':
+            close_frame()
             t, p, a, act, st = rest.split()
             cur = Frame(('ev', {'time': num(t), 'prio': pnum(p), 'asset': int(a), 'act': int(act), 'status': st}))
             fs.append(cur)
         elif tag == 'evid':
             if cur is not None:
                 cur.evid = int(rest.split()[0])
-        elif tag == 'res':
+        elif tag in ('res', 'rec'):
             if cur is None or cur.now is not None:
-                # result printed before the dump of a new ext frame
+                close_frame()
                 cur = Frame(('ext', None))
                 fs.append(cur)
-            cur.results.append(rest)
+            (cur.results if tag == 'res' else cur.recs).append(rest)
         elif tag == 'now':
             if cur is None or cur.now is not None:
+                close_frame()
                 cur = Frame(('ext', None))
                 fs.append(cur)
             n, term = rest.split()
             cur.now = num(n)
             cur.terminated = term == '1'
         elif tag == 'q':
-            cur.q = parse_events(rest)
+            q = parse_events(rest)
         elif tag == 'z':
-            cur.z = parse_events(rest)
+            z = parse_events(rest)
         elif tag == 'qid':
-            cur.qid = parse_ids(rest)
+            qid = parse_ids(rest)
         elif tag == 'zid':
-            cur.zid = parse_ids(rest)
+            zid = parse_ids(rest)
         elif tag == 'runbegin':
+            close_frame()
             a, b = rest.split()
-            f = Frame(('runbegin', num(a), num(b)))
-            fs.append(f)
-            cur = f
+            cur = Frame(('runbegin', num(a), num(b)))
+            fs.append(cur)
         elif tag == 'ran':
-            f = Frame(('ran', num(rest)))
-            f.now = num(rest)
-            fs.append(f)
-            cur = f
+            close_frame()
+            cur = Frame(('ran', num(rest)))
+            cur.now = num(rest)
+            fs.append(cur)
         elif tag in ('abort', 'abort-run'):
+            close_frame()
             f = Frame(('abort', rest))
             f.abort = rest
             f.now = cur.now if cur is not None else None
@@ -106,9 +117,31 @@ def frames(stream, scenario_lines=None):
         elif tag in ('scenario', 'end'):
             continue
         else:
-            if cur is not None:
-                cur.lines.setdefault(tag, []).append(rest)
+            if tag == 'wq':
+                state['wq'] = rest
+            else:
+                idx, _, body = rest.partition(' ')
+                state[tag + ' ' + idx] = body
+    close_frame()
     return fs
+
+
+def kvline(body):
+    """'a=1 b=2' -> dict"""
+    d = {}
+    for t in body.split():
+        if '=' in t:
+            k, v = t.split('=', 1)
+            d[k] = v
+    return d
+
+
+def close(a, b):
+    """equality of two tick values: exact on the dyadic grid, a few ulps otherwise"""
+    if float(a).is_integer() and float(b).is_integer():
+        return a == b
+    m = max(abs(a), abs(b), 1e-300) / 16.0
+    return abs(a - b) <= 16.0 * 4 * math.ulp(m)
 
 
 def ev_key(e):
@@ -222,18 +255,245 @@ def c07(stream, scen=None):
             if k in prevz:
                 old = prevz[k]
                 exp = old['time'] + (f.now - old['paused_at'])
-                tol = 0 if float(exp).is_integer() and float(x['time']).is_integer() else 16 * 2 * math.ulp(max(abs(exp) / 16, 1e-300))
-                if abs(x['time'] - exp) > tol:
+                if not close(x['time'], exp):
                     wit.append(f'frame {i}: resumed event {k} at {x["time"]}, expected original time + '
                                f'pause length = {exp}')
         for k, x in z.items():
             if k in prevq:
                 if x['time'] != prevq[k]['time']:
                     wit.append(f'frame {i}: paused event {k} changed its time')
-            if k in prevz and (x['time'] - x['paused_at'] != prevz[k]['time'] - prevz[k]['paused_at']):
+            if k in prevz and not close(x['time'] - x['paused_at'] + 1e6, prevz[k]['time'] - prevz[k]['paused_at'] + 1e6):
                 wit.append(f'frame {i}: paused event {k}: remaining delay changed while paused')
         prevq, prevz = q, z
     return wit
 
 
 MONITORS = {'C01': [c01, c01_runs], 'C07': [c07]}
+
+
+# ---------------------------------------------------------------------------- component monitors
+def preq(s):
+    return {} if s in ('-', '') else {int(a): int(b) for a, b in (e.split(':') for e in s.split(';'))}
+
+
+def pools_of(state):
+    out = {}
+    for k, v in state.items():
+        if k.startswith('r '):
+            d = kvline(v)
+            out[int(k[2:])] = (int(d['use']), int(d['cap']))
+    return out
+
+
+def feasible(pools, req):
+    for r, a in req.items():
+        if a == 0:
+            continue
+        if r not in pools or pools[r][1] - pools[r][0] < a:
+            return False
+    return True
+
+
+def advance_frames(fs):
+    """indices of frames after which the clock advances (the next executed event is later), or
+    which close a run"""
+    out = []
+    for i, f in enumerate(fs):
+        if f.now is None or f.trigger[0] in ('ran', 'runbegin', 'abort'):
+            continue
+        nxt = None
+        for g in fs[i + 1:]:
+            if g.trigger[0] == 'ev':
+                nxt = g
+                break
+            if g.trigger[0] in ('ran', 'ext', 'abort'):
+                break
+        if nxt is not None and nxt.trigger[1]['time'] > f.now:
+            out.append(i)
+    return out
+
+
+def c09(stream, scen=None):
+    """usage = sum of all outstanding holdings, usage >= 0, capacity >= 0, an operation that raised
+    an error changed nothing (pools, holdings, waiting list)."""
+    wit = []
+    fs = frames(stream)
+    prev = None
+    for i, f in enumerate(fs):
+        if f.now is None or f.trigger[0] in ('ran', 'runbegin'):
+            continue
+        pools = pools_of(f.state)
+        hs = preq(f.state.get('hsum 0', '-'))
+        for r, (u, c) in pools.items():
+            if u < 0:
+                wit.append(f'frame {i}: usage of resource {r} is negative ({u})')
+            if c < 0:
+                wit.append(f'frame {i}: capacity of resource {r} is negative ({c})')
+            if hs.get(r, 0) != u:
+                wit.append(f'frame {i}: usage of resource {r} is {u} but outstanding reservations hold {hs.get(r, 0)}')
+        if f.trigger[0] == 'ext' and len(f.results) == 1 and f.results[0].startswith('err') and prev is not None:
+            keys = [k for k in set(f.state) | set(prev.state) if k[0] in 'rhw']
+            ch = [k for k in keys if f.state.get(k) != prev.state.get(k)]
+            if ch:
+                wit.append(f'frame {i}: operation raised {f.results[0]} but changed {ch[:3]}')
+        prev = f
+    return wit
+
+
+def c10(stream, scen=None):
+    """when the clock advances no waiting request is feasible; every callback log entry carries the
+    right arguments."""
+    wit = []
+    fs = frames(stream)
+    for i in advance_frames(fs):
+        f = fs[i]
+        pools = pools_of(f.state)
+        wq = f.state.get('wq', '-')
+        if wq != '-':
+            for item in wq.split(','):
+                req, _, cb = item.partition('@')
+                if feasible(pools, preq(req)):
+                    wit.append(f'frame {i} (t={f.now}): the clock advances while waiting request {req} of {cb} fits the pools {pools}')
+    for i, f in enumerate(fs):
+        for r in f.results:
+            if 'badargs' in r:
+                wit.append(f'frame {i}: callback invoked with wrong arguments: {r}')
+    return wit
+
+
+def c12(stream, scen=None):
+    """utilisation within capacity, one order per target, nothing startable left when the clock
+    advances, hooks once each per started order."""
+    wit = []
+    fs = frames(stream)
+    adv = set(advance_frames(fs))
+    starts, ends, hs, he = {}, {}, {}, {}
+    for i, f in enumerate(fs):
+        for rec in f.recs:
+            t = rec.split()
+            if t[0] == 'start_work_order':
+                starts[(t[1], t[3], t[4])] = starts.get((t[1], t[3], t[4]), 0) + 1
+            if t[0] == 'finish_work_order':
+                ends[(t[1], t[3], t[4])] = ends.get((t[1], t[3], t[4]), 0) + 1
+        for r in f.results:
+            t = r.split()
+            if t[0] == 'hook':
+                d = hs if t[1] == 'start' else he
+                d[(t[2], t[3])] = d.get((t[2], t[3]), 0) + 1
+        if f.now is None:
+            continue
+        for k, v in f.state.items():
+            if not k.startswith('m '):
+                continue
+            d = kvline(v)
+            util = int(d['util'])
+            avail = None if d['avail'] == 'inf' else int(d['avail'])
+            act = [] if d['active'] == '-' else [x.split(':') for x in d['active'].split(';')]
+            que = [] if d['queue'] == '-' else [x.split(':') for x in d['queue'].split(';')]
+            if avail is not None and avail < 0 and util > 0:
+                wit.append(f'frame {i}: maintainer {k} uses {util} with available capacity {avail}')
+            tg = [a[1] for a in act]
+            if len(set(tg)) != len(tg):
+                wit.append(f'frame {i}: two orders in progress on one target: {act}')
+            if sum(int(a[3]) for a in act) != util:
+                wit.append(f'frame {i}: utilisation {util} differs from the needs of the active orders {act}')
+            if i in adv:
+                for o in que:
+                    if o[1] not in tg and (avail is None or int(o[3]) <= avail):
+                        wit.append(f'frame {i} (t={f.now}): clock advances while queued order {o} fits (avail {avail}) and its target is free')
+    tot_s = {}
+    for (m, tg, tag), n in starts.items():
+        tot_s[(tg, tag)] = tot_s.get((tg, tag), 0) + n
+    for key, n in tot_s.items():
+        if hs.get(key, 0) != n:
+            wit.append(f'start hook of target/tag {key} ran {hs.get(key, 0)} times for {n} started orders')
+    tot_e = {}
+    for (m, tg, tag), n in ends.items():
+        tot_e[(tg, tag)] = tot_e.get((tg, tag), 0) + n
+    for key, n in tot_e.items():
+        if he.get(key, 0) != n:
+            wit.append(f'end hook of target/tag {key} ran {he.get(key, 0)} times for {n} finished orders')
+    return wit
+
+
+def c18(stream, scen):
+    """state changes happen at the timetable's times with the timetable's states; one action per
+    registered object per change."""
+    wit = []
+    tts = []
+    for l in scen or []:
+        if l[0] == 'asset' and l[1] == 'sched':
+            kv = dict(t.split('=', 1) for t in l[2:] if '=' in t)
+            tt = [(int(a), int(b)) for a, b in (e.split(':') for e in kv['tt'].split(','))]
+            tts.append((tt, kv.get('cyc', 'def') != '0'))
+    fs = frames(stream)
+    seen = {}
+    t0 = {}
+    for i, f in enumerate(fs):
+        nact = {}
+        for r in f.results:
+            t = r.split()
+            if t[0] == 'act':
+                nact[t[1]] = nact.get(t[1], 0) + 1
+                if 'badargs' in r:
+                    wit.append(f'frame {i}: action called with wrong arguments: {r}')
+        for rec in f.recs:
+            t = rec.split()
+            if t[0] != 'schedule_update':
+                continue
+            s, tm, st = int(t[1]), int(t[2]), int(t[3])
+            k = seen.get(s, 0)
+            seen[s] = k + 1
+            if s >= len(tts):
+                continue
+            tt, cyc = tts[s]
+            if k == 0:
+                t0[s] = tm
+            if not cyc and k >= len(tt):
+                wit.append(f'frame {i}: non-cyclical scheduler {s} changed state after its last entry')
+                continue
+            exp_t = t0[s] + sum(tt[j % len(tt)][0] for j in range(k))
+            exp_s = tt[k % len(tt)][1]
+            if tm != exp_t or st != exp_s:
+                wit.append(f'frame {i}: scheduler {s} change #{k} at {tm} to state {st}; timetable says {exp_t}, state {exp_s}')
+    return wit
+
+
+def c19(stream, scen):
+    """periodic measurements at k*interval; all series (incl. time) aligned and within capacity."""
+    wit = []
+    sens = []
+    for l in scen or []:
+        if l[0] == 'asset' and l[1] == 'sensor':
+            kv = dict(t.split('=', 1) for t in l[3:] if '=' in t)
+            sens.append((l[2], kv))
+    fs = frames(stream)
+    for i, f in enumerate(fs):
+        if f.now is None:
+            continue
+        for k, v in f.state.items():
+            if not k.startswith('n '):
+                continue
+            si = int(k[2:])
+            if si >= len(sens):
+                continue
+            kind, kv = sens[si]
+            d = kvline(v)
+            series = [[] if x == '-' else x.split(';') for x in d['data'].split('|')]
+            tm = [] if d['time'] == '-' else [int(x) for x in d['time'].split(';')]
+            lens = set(len(x) for x in series)
+            cap = kv.get('cap', 'def')
+            if len(lens) > 1:
+                wit.append(f'frame {i}: sensor {si} probe series have different lengths {lens}')
+            if cap not in ('def', 'inf') and any(n > int(cap) for n in lens):
+                wit.append(f'frame {i}: sensor {si} keeps more than its capacity {cap}')
+            if kind == 'per':
+                if lens and len(tm) not in lens:
+                    wit.append(f'frame {i}: sensor {si} time series has {len(tm)} entries, probe series {lens}')
+                iv = int(kv.get('interval', '16'))
+                if any(x % iv != 0 or x <= 0 for x in tm) or any(b - a != iv for a, b in zip(tm, tm[1:])):
+                    wit.append(f'frame {i}: sensor {si} measured at {tm}, interval {iv}')
+    return wit
+
+
+MONITORS.update({'C09': [c09], 'C10': [c10], 'C12': [c12], 'C18': [c18], 'C19': [c19]})
